@@ -14,7 +14,7 @@ import (
 func init() {
 	fw.Register(&fw.Check{
 		ID: "C07", Level: "model_checking",
-		Rule: "(a) every host of PASTE (top level, URL, HTTP method, request, response, INFO, SERVER) x every macro body admitted there x definition before/after use x nesting depth 1..3 x explicit/implicit host context, plus every pool document that uses macros: if accepted, the inlined document must be accepted with byte-identical JSON, and an extra never-pasted macro must change nothing; (b) ALL paste graphs over <= 4 macros (every subset of the n*n PASTE edges; thorough: also 5 macros with <= 6 edges) x definition order x used/unused: cyclic, undefined and duplicate cases must be rejected (a crash or overflow is a violation), acyclic ones must equal their inlining; non-trivial = document with at least one PASTE; distinct = distinct texts",
+		Rule: "(a) every host of PASTE (top level, URL, HTTP method, request, response, INFO, SERVER) x every macro body admitted there x definition before/after use x nesting depth 1..3 x explicit/implicit host context, plus every pool document that uses macros: if accepted, the inlined document must be accepted with byte-identical JSON, and an extra never-pasted macro must change nothing; (b) ALL paste graphs over <= 4 macros (every subset of the n*n PASTE edges; thorough: also 5 macros with <= 6 edges) x definition order x used/unused: cyclic, undefined and duplicate cases must be rejected (a crash or overflow is a violation), acyclic ones must equal their inlining; non-trivial = document with at least one PASTE; distinct = distinct texts ; E-REFCAT (see C04): on every fixture, pool selection and generated macro document, the implementation's forest after macro expansion equals the reference resolver's forest of the token stream in which every PASTE is replaced by the body of its macro; PASTE of an undefined macro, duplicate macro and macro cycles seen by the reference => rejected",
 		Run:  runC07, QuickCap: 6 * time.Minute, ThoroughCap: 40 * time.Minute,
 	})
 }
@@ -115,6 +115,9 @@ func pasteHosts() []pasteHost {
 var corpusC07Hook func(c *fw.Ctx)
 
 func runC07(c *fw.Ctx) {
+	if refcatHook != nil {
+		refcatHook(c, "C07")
+	}
 	if corpusC07Hook != nil {
 		corpusC07Hook(c)
 	}
@@ -131,6 +134,9 @@ func runC07(c *fw.Ctx) {
 			return
 		}
 		c.Distinct(text)
+		if refcatAlso != nil {
+			refcatAlso(c, "C07", label, text, o) // the forest after expansion is the reference resolver's
+		}
 		if !o.OK() {
 			// the property is conditional on acceptance; the converse is not stated
 			c.Count("rejected_with_macros", 1)
